@@ -253,6 +253,15 @@ def run(ctx):
         except adcio.Unsupported as ex:
             ctx.note(f"expand case outside the fragment: {ex}")
             continue
+        n_tens = max((sum(1 for a, inv in fs if a[0] == "T"
+                          and a[2] != "e") for c, fs in p_lib), default=0)
+        if n_tens > (5 if quick else 6):
+            # products of several expanded intermediates: the certificate
+            # search needs large automorphism averages; left to smaller
+            # instances (counted)
+            ctx.dist["expand:skipped-many-tensors"] = \
+                ctx.dist.get("expand:skipped-many-tensors", 0) + 1
+            continue
         if len(p_lib) > (250 if quick else 1200):
             # keep the kernel evaluation small: huge expansions (powers of
             # long intermediates) are left to smaller instances
@@ -448,6 +457,13 @@ def run(ctx):
         if p.ok is None:
             ctx.obligation(f"{p.label}: inside the validator fragment", False,
                            p.err)
+            continue
+        if not p.ok and getattr(p, "timed_out", False) and p.diff is None:
+            # kernel evaluation hit its time limit and the numeric search
+            # found no difference: undecided, counted, not an alarm
+            ctx.dist["validator-time-limit"] = \
+                ctx.dist.get("validator-time-limit", 0) + 1
+            ctx.note(f"{p.label}: validator time limit, undecided")
             continue
         e2s = str(getattr(p.e2, "sympy", p.e2))
         if not ctx.obligation(f"{p.label}: {e2s[:60]}", p.ok, p.err):
